@@ -56,6 +56,7 @@ class Ctx:
         self.cur_nontrivial = True
         self.table = {}
         self.notes = []
+        self.timed_out = False
 
     def count(self, key, n=1):
         self.counters[key] = self.counters.get(key, 0) + n
@@ -80,6 +81,9 @@ class Ctx:
         try:
             return True, fn(*a, **kw)
         except Exception as e:  # noqa: BLE001 - the monitor observes every outcome (RecursionError included)
+            if self.timed_out:
+                # the per-case watchdog fired inside a C callback (ctypes wraps it into an ordinary exception)
+                raise CaseTimeout() from None
             e._tb = traceback.format_exc(limit=6)
             return False, e
 
@@ -180,6 +184,7 @@ def main():
     case_limit = float(os.environ.get("VERIF_CASE_SECS", budget.get("case_secs", 15)))
 
     def on_alarm(signum, frame):
+        ctx.timed_out = True
         raise CaseTimeout()
 
     signal.signal(signal.SIGALRM, on_alarm)
@@ -208,12 +213,15 @@ def main():
         ctx.cur_nontrivial = True
         nv0 = len(ctx.violations)
         tc0 = time.time()
+        ctx.timed_out = False
         try:
             signal.setitimer(signal.ITIMER_REAL, case_limit)
             try:
                 mod.check(case, ctx)
             finally:
                 signal.setitimer(signal.ITIMER_REAL, 0)
+            if ctx.timed_out:
+                raise CaseTimeout()
         except CaseTimeout:
             # a case that does not finish is neither held nor violated: counted, and too many make the run inconclusive
             ctx.count("case_timeouts")
